@@ -109,8 +109,8 @@ Proof. exact step_sparse_vsubs. Qed.
 (* division: exact statement on the model's carrier (Go's truncating integer
    division; for the float types the quotient is exact where the divisor
    divides the dividend), the divisor non-zero at every position; without that
-   hypothesis Go gives Inf/NaN (floats) or panics (ints) — modelled in [sdiv],
-   tied by the correspondence, no theorem *)
+   hypothesis Go gives Inf/NaN (floats: PropsR2.sparse_receiver_division_total)
+   or panics (ints) — modelled in [sdiv], tied by the correspondence *)
 Theorem sparse_receiver_division : forall y w t a b,
   Good3 w t -> operand3 w t a -> operand3 w t b -> nonzero_all (abs3 w b) ->
   let r := step3 y w (VdivV (RS t) a b) in
@@ -231,14 +231,14 @@ Proof. vm_compute. repeat split; auto; try lia; discriminate. Qed.
    The matrix operations (sparse matrix = header over one sparse vector of the
    world, dense matrix = row-major list; MaddM .. MdivS, MdotM, Outer, MdotV,
    VdotM, Set, SetIdentity, Reset, Equals, conversions) are modelled in
-   ModelM.v and tied to the implementation by the correspondence.  PARTIAL: no
-   universally quantified theorem is proved about them here (the element-wise
-   ones run the same loops as the vector operations above, on the values
-   vector, but through the matrix joint iterators whose Ok() is value based).
-   The two defects found while building this check (sparse MdotM accumulating
-   onto the receiver's prior content; sparse matrix Equals answering false where
-   the receiver has no entry) were fixed in /repo (c117908, fc1915b); the model
-   follows HEAD and the witnesses are regression examples. *)
+   ModelM.v and tied to the implementation by the correspondence.  Their
+   universally quantified theorems (round 2) are in PropsM.v; a receiver that
+   is also an operand, division by zero on the float types and whole histories
+   are in PropsR2.v.  The two defects found while building this check (sparse
+   MdotM accumulating onto the receiver's prior content; sparse matrix Equals
+   answering false where the receiver has no entry) were fixed in /repo
+   (c117908, fc1915b); the model follows HEAD and the witnesses below are
+   regression examples. *)
 Theorem mdotm_stale_fixed :
   let w := run4 TFloat init4 [NewSM [0] [7] 1 1; NewDM [7] 1 1; NewDM [2] 1 1; NewDM [3] 1 1] in
   mabs w (XS 0) = mabs w (XD 0) /\
